@@ -210,9 +210,12 @@ def build_file(case):
         elif r == 'dynsym':
             d = case['dynsym']
             offs = strs[d['strtab']][1]
-            data = b''.join(W.enc_sym(cls, le, offs[s_['name']], s_['value'], s_['size'], s_['info'], s_['other'], s_['shndx'])
+            # sh_entsize may exceed the size of Elf_Sym (the gABI gives every table its entry size in the header): entries are then padded,
+            # and whoever reads a symbol of this table on behalf of the version section has to step by the table's own entry size
+            sympad = d.get('sympad', 0)
+            data = b''.join(W.enc_sym(cls, le, offs[s_['name']], s_['value'], s_['size'], s_['info'], s_['other'], s_['shndx']) + bytes((0xa5 + k) & 0xff for k in range(sympad))
                             for s_ in d['syms'])
-            s = {'name': '.dynsym', 'sh_type': SHT_DYNSYM, 'sh_flags': 2, 'data': data, 'sh_entsize': W.SYM_SIZE[cls],
+            s = {'name': '.dynsym', 'sh_type': SHT_DYNSYM, 'sh_flags': 2, 'data': data, 'sh_entsize': W.SYM_SIZE[cls] + sympad,
                  'sh_link': idx['str%d' % d['strtab']], 'sh_info': 1 if d['syms'] else 0, 'sh_addralign': cls // 8}
             info['symnames'] = [s_['name'] for s_ in d['syms']]
         elif r == 'versym':
@@ -986,6 +989,8 @@ def build_model(ch, tier, force=None):
         syms.append({'name': nm, 'value': (0x1000 + 0x10 * k) & W.mask(cls), 'size': k * 3, 'info': (0x12, 0x11, 0x10, 0x22, 0)[k % 5],
                      'other': k % 4, 'shndx': (0, 1, 5, 0xfff1)[k % 4]})
     case['dynsym'] = {'strtab': ch.int(0, nstr - 1), 'syms': syms}
+    if ch.bool(0.2):
+        case['dynsym']['sympad'] = ch.choice([8, 8, 16, 4, 24])
     if 'versym' in present:
         vs = F.get('versym_scheme', 'random')
         if vs == 'boundary':
@@ -1148,8 +1153,8 @@ def bulk(ctx, tier, shard, nshards):
     cases = sweep(tier)
     step = 8 if tier == 'quick' else 1
     for k, case in enumerate(cases):
-        if k % nshards != shard or (k // nshards) % step or case.get('far'):
-            continue
+        if k % nshards != shard or (k // nshards) % step or case.get('far') or case.get('dynsym', {}).get('sympad'):
+            continue        # (readelf indexes symbol tables as arrays of the standard structure: it cannot referee padded entries)
         bad, checked = referee_case(case)
         if bad:
             from vf.core import HarnessError
